@@ -152,14 +152,20 @@ class LiveSet:
 
 
 def region_dce(region: Region, listener: PatternRewriterListener | None = None) -> bool:
-    live_set = LiveSet()
+    changed = False
+    # Erasing an unreachable block may remove the last observable effect of an
+    # enclosing operation, so liveness is recomputed until nothing is erased.
+    while True:
+        live_set = LiveSet()
 
-    while live_set.changed:
-        live_set.changed = False
-        live_set.propagate_region_liveness(region)
+        while live_set.changed:
+            live_set.changed = False
+            live_set.propagate_region_liveness(region)
 
-    live_set.delete_dead(region, listener)
-    return live_set.changed
+        live_set.delete_dead(region, listener)
+        if not live_set.changed:
+            return changed
+        changed = True
 
 
 class DeadCodeElimination(ModulePass):
